@@ -9,8 +9,11 @@
 
    Clients are identified by integers (one id per handler object, never reused); a message
    is identified by the value carried by its Emit step (the harness uses the emission
-   index).  The IO loop is a FIFO of (client, message) callbacks; the cross-thread hand-off
-   is modelled as an atomic enqueue of the snapshot. *)
+   index).  The IO loop is a FIFO of (client, message) callbacks.  The cross-thread hand-off
+   is NOT atomic: [Emit] takes the snapshot (one C-level set.copy(), atomic in CPython - the
+   harness checks that by interleaving injection) into the actor thread's [outbox], and every
+   [HandOver] step passes one callback to the loop, arbitrarily interleaved with the loop's
+   own steps (callbacks running, clients connecting and disconnecting, sockets failing). *)
 From Coq Require Import ZArith List Bool.
 From Common Require Import Str.
 Import ListNotations.
@@ -25,17 +28,25 @@ Inductive step : Type :=
 | Disconnect (c : Z)       (* connection closed, WebSocketHandler.on_close *)
 | SocketFails (c : Z)      (* from now on write_message on c raises *)
 | SocketRecovers (c : Z)   (* ... and stops doing so (transient failure) *)
+| HandOver                 (* the actor thread hands the next callback of its snapshot to
+                              io_loop.add_callback (one call per client: the loop thread
+                              may run callbacks and (dis)connect clients in between) *)
 | RunCallback.             (* the IO loop runs the oldest pending callback *)
 
 Record state : Type := mkState {
   clients : list Z;           (* WebSocketHandler.clients *)
-  queue : list (Z * Z);       (* pending callbacks, oldest first *)
+  outbox : list (Z * Z);      (* actor thread: callbacks of the snapshot(s) already taken that
+                                 broadcast() has not yet handed to io_loop.add_callback *)
+  queue : list (Z * Z);       (* IO loop: pending callbacks, oldest first *)
   closed : list Z;            (* handlers whose connection is closed: write_message raises *)
   failing : list Z;           (* handlers with an injected write failure *)
-  delivered : list (Z * Z)    (* successful write_message calls, oldest first *)
+  delivered : list (Z * Z);   (* successful write_message calls, oldest first *)
+  attempted : list (Z * Z * bool)
+                              (* ghost: every write_message call made by a callback, with
+                                 its outcome (true = the write succeeded) *)
 }.
 
-Definition init : state := mkState [] [] [] [] [].
+Definition init : state := mkState [] [] [] [] [] [] [].
 
 Definition memz (c : Z) (l : list Z) : bool := existsb (Z.eqb c) l.
 Definition removez (c : Z) (l : list Z) : list Z := filter (fun d => negb (d =? c)) l.
@@ -55,26 +66,38 @@ Definition snapshot (ord cl : list Z) : list Z :=
 Definition do_step (s : state) (x : step) : state :=
   match x with
   | Emit e ord =>
-      mkState (clients s) (queue s ++ map (fun c => (c, e)) (snapshot ord (clients s)))
-              (closed s) (failing s) (delivered s)
+      mkState (clients s) (outbox s ++ map (fun c => (c, e)) (snapshot ord (clients s)))
+              (queue s) (closed s) (failing s) (delivered s) (attempted s)
+  | HandOver =>
+      match outbox s with
+      | [] => s
+      | p :: o => mkState (clients s) o (queue s ++ [p]) (closed s) (failing s) (delivered s)
+                          (attempted s)
+      end
   | Connect c =>
       if memz c (clients s) || memz c (closed s) then s
-      else mkState (c :: clients s) (queue s) (closed s) (failing s) (delivered s)
+      else mkState (c :: clients s) (outbox s) (queue s) (closed s) (failing s) (delivered s)
+                   (attempted s)
   | Disconnect c =>
       if memz c (clients s)
-      then mkState (removez c (clients s)) (queue s) (c :: closed s) (failing s) (delivered s)
+      then mkState (removez c (clients s)) (outbox s) (queue s) (c :: closed s) (failing s)
+                   (delivered s) (attempted s)
       else s
   | SocketFails c =>
-      mkState (clients s) (queue s) (closed s) (c :: failing s) (delivered s)
+      mkState (clients s) (outbox s) (queue s) (closed s) (c :: failing s) (delivered s)
+              (attempted s)
   | SocketRecovers c =>
-      mkState (clients s) (queue s) (closed s) (removez c (failing s)) (delivered s)
+      mkState (clients s) (outbox s) (queue s) (closed s) (removez c (failing s)) (delivered s)
+              (attempted s)
   | RunCallback =>
       match queue s with
       | [] => s
       | (c, m) :: q =>
           if memz c (closed s) || memz c (failing s)
-          then mkState (clients s) q (closed s) (failing s) (delivered s)   (* swallowed *)
-          else mkState (clients s) q (closed s) (failing s) (delivered s ++ [(c, m)])
+          then mkState (clients s) (outbox s) q (closed s) (failing s) (delivered s)
+                       (attempted s ++ [((c, m), false)])                 (* swallowed *)
+          else mkState (clients s) (outbox s) q (closed s) (failing s) (delivered s ++ [(c, m)])
+                       (attempted s ++ [((c, m), true)])
       end
   end.
 
@@ -85,7 +108,15 @@ Definition run (l : list step) : state := run_from init l.
 Definition for_client (c : Z) (l : list (Z * Z)) : list Z :=
   map snd (filter (fun p => fst p =? c) l).
 Definition recv (c : Z) (s : state) : list Z := for_client c (delivered s).
-Definition pending (c : Z) (s : state) : list Z := for_client c (queue s).
+(* still on its way to c: on the loop, or not yet handed over by the actor thread *)
+Definition inflight (s : state) : list (Z * Z) := queue s ++ outbox s.
+Definition pending (c : Z) (s : state) : list Z := for_client c (inflight s).
+(* every write attempted on c (successful or not) *)
+Definition attempts (s : state) : list (Z * Z) := map fst (attempted s).
+Definition att (c : Z) (s : state) : list Z := for_client c (attempts s).
+(* nothing in flight: the actor has handed everything over and the loop has run it *)
+Definition idle (s : state) : bool :=
+  match queue s, outbox s with [], [] => true | _, _ => false end.
 
 (* ------------------------------------------------------------------------
    Specification side, independent of the machine: the events emitted while c was
@@ -131,7 +162,7 @@ Definition concerns (c : Z) (x : step) : bool :=
   match x with
   | Emit _ _ => true
   | Connect d | Disconnect d | SocketFails d | SocketRecovers d => d =? c
-  | RunCallback => false
+  | HandOver | RunCallback => false
   end.
 
 (* subsequence (order-preserving, each position used at most once) *)
@@ -261,6 +292,7 @@ Definition proj (c : Z) (s : state) (x : step) : list lstep :=
   | Disconnect d => if d =? c then [LDisconnect] else []
   | SocketFails d => if d =? c then [LFail] else []
   | SocketRecovers d => if d =? c then [LRecover] else []
+  | HandOver => []
   | RunCallback => match queue s with
                    | (c', _) :: _ => if c' =? c then [LRun] else []
                    | [] => []
